@@ -99,6 +99,132 @@ theorem entries_bounds (recs : List Rec) (hwf : recsWf recs = true) :
       have := ih1 e he
       omega
 
+/-! ### the records of a well-formed file pass `ReadFrom`'s validation (`Record.isValid`) -/
+
+/-- `isValid` from facts about the natural-number fields -/
+theorem isValid_of_nat (R : Record) (h1 : R.basesPerLine ≤ R.bytesPerLine)
+    (h2 : R.basesPerLine = 0 → R.length = 0)
+    (h3 : R.start + R.basesPerLine + R.length / R.basesPerLine * R.bytesPerLine < 2 ^ 63) :
+    R.toRaw.isValid = true := by
+  unfold RawRecord.isValid Record.toRaw
+  have hneg : ¬ ((R.length : Int) < 0 ∨ (R.start : Int) < 0 ∨ (R.basesPerLine : Int) < 0 ∨
+      (R.bytesPerLine : Int) < (R.basesPerLine : Int)) := by omega
+  simp only [hneg, if_false]
+  by_cases hb : R.basesPerLine = 0
+  · have : (R.basesPerLine : Int) = 0 := by omega
+    have hl : (R.length : Int) = 0 := by have := h2 hb; omega
+    simp [this, hl]
+  · have hb' : ¬ ((R.basesPerLine : Int) = 0) := by omega
+    simp only [hb', if_false, decide_eq_true_eq]
+    have hnn : (0 : Int) ≤ maxInt64 - (R.start : Int) - (R.basesPerLine : Int) := by
+      unfold maxInt64; omega
+    rw [Int.natCast_tdiv_eq_ediv, Int.tdiv_eq_ediv_of_nonneg hnn]
+    apply Int.le_ediv_of_mul_le (by omega)
+    have h3' : ((R.start + R.basesPerLine + R.length / R.basesPerLine * R.bytesPerLine : Nat) : Int) <
+        ((2 ^ 63 : Nat) : Int) := Int.ofNat_lt.mpr h3
+    simp only [Int.natCast_add, Int.natCast_mul, Int.natCast_ediv] at h3'
+    unfold maxInt64
+    have e : ((2 ^ 63 : Nat) : Int) = 2 ^ 63 := by decide
+    rw [e] at h3'
+    omega
+
+/-- the full lines of the body: `(length / width)` lines of `width + eol` bytes fit in the body plus one
+terminator -/
+theorem body_lines_aux (w : Nat) (eol : Bytes) (fin : Bool) (hw : 1 ≤ w) (n : Nat) :
+    ∀ (bs : Bytes), bs.length ≤ n → bs ≠ [] →
+      bs.length / w * (w + eol.length) ≤ (body w eol fin bs).length + eol.length := by
+  induction n with
+  | zero =>
+    intro bs hn hne
+    exact absurd (List.eq_nil_of_length_eq_zero (Nat.le_zero.mp hn)) hne
+  | succ n ih =>
+    intro bs hn hne
+    by_cases hlen : bs.length ≤ w
+    · rw [body_single w eol fin bs hne hlen]
+      by_cases heq : bs.length = w
+      · rw [heq, Nat.div_self (by omega), Nat.one_mul, List.length_append, heq]; omega
+      · rw [Nat.div_eq_of_lt (by omega)]; omega
+    · have hlen' : w < bs.length := by omega
+      have hdne : bs.drop w ≠ [] := by
+        intro h'
+        have := congrArg List.length h'
+        rw [List.length_drop, List.length_nil] at this; omega
+      have := ih (bs.drop w) (by rw [List.length_drop]; omega) hdne
+      rw [body_multi w eol fin bs hw hlen']
+      have hL : bs.length = (bs.drop w).length + w := by rw [List.length_drop]; omega
+      have htl : (bs.take w).length = w := by rw [List.length_take]; omega
+      rw [hL, Nat.add_div_right _ (by omega), Nat.add_mul, Nat.one_mul]
+      simp only [List.length_append, htl]
+      omega
+
+theorem entry_valid_bound (r : Rec) (last : Bool) (h : RecOK r last) (o : Nat) :
+    (r.entry o).basesPerLine ≤ (r.entry o).bytesPerLine ∧
+    ((r.entry o).basesPerLine = 0 → (r.entry o).length = 0) ∧
+    (r.entry o).start + (r.entry o).basesPerLine +
+      (r.entry o).length / (r.entry o).basesPerLine * (r.entry o).bytesPerLine ≤ o + 2 * r.render.length + 2 := by
+  obtain ⟨b1, b2, b3, b4, b5⟩ := entry_bounds r last h o
+  by_cases hb : r.bases = []
+  · simp only [Rec.entry, hb, List.length_nil, List.take_nil, if_true, Nat.le_refl, true_and, Nat.zero_div,
+      Nat.zero_mul, Nat.add_zero, implies_true]
+    simp only [Rec.entry, hb, List.length_nil, true_and] at b2
+    omega
+  · have hsl := seqLines_ne_nil r.width r.bases hb
+    have hrender : r.render = (r.headerLine ++ r.eol.bytes) ++
+        (body r.width r.eol.bytes r.finalNewline r.bases ++ (blankLines r.blanksAfter).flatten) := by
+      unfold Rec.render Rec.fileLines body
+      have : r.lines = r.headerLine :: seqLines r.width r.bases := rfl
+      rw [this, terminate_cons_ne _ _ _ _ hsl]
+      simp
+    have hbl := body_length_aux r.width r.eol.bytes r.finalNewline h.width r.bases.length r.bases
+      (Nat.le_refl _) hb
+    have hlines := body_lines_aux r.width r.eol.bytes r.finalNewline h.width r.bases.length r.bases
+      (Nat.le_refl _) hb
+    have hLpos : 1 ≤ r.bases.length := by
+      cases hbs : r.bases with
+      | nil => exact absurd hbs hb
+      | cons x xs => simp
+    have he2 : r.eol.bytes.length ≤ 2 := by cases r.eol <;> decide
+    have hw := h.width
+    clear b1 b2 b3 b4 b5
+    have hrl : r.render.length = r.headerLine.length + r.eol.bytes.length +
+        ((body r.width r.eol.bytes r.finalNewline r.bases).length + (blankLines r.blanksAfter).flatten.length) := by
+      rw [hrender]; simp only [List.length_append]
+    simp only [Rec.entry, hb, false_and, if_false, List.length_take, decide_eq_true_eq] at hbl ⊢
+    refine ⟨by omega, by omega, ?_⟩
+    by_cases hlen : r.bases.length ≤ r.width
+    · -- one line: BasesPerLine = length, one line of BytesPerLine bytes = the body
+      have hm : min r.width r.bases.length = r.bases.length := by omega
+      rw [hm] at hbl ⊢
+      rw [Nat.div_self (by omega), Nat.one_mul]
+      omega
+    · have hm : min r.width r.bases.length = r.width := by omega
+      rw [hm] at hbl ⊢
+      simp only [hlen, false_and, if_false] at hbl ⊢
+      omega
+
+theorem entries_valid_bound (recs : List Rec) (hwf : recsWf recs = true) :
+    ∀ o, ∀ e ∈ entriesFrom o recs, e.basesPerLine ≤ e.bytesPerLine ∧ (e.basesPerLine = 0 → e.length = 0) ∧
+      e.start + e.basesPerLine + e.length / e.basesPerLine * e.bytesPerLine ≤
+        2 * (o + (recs.map Rec.render).flatten.length) + 2 := by
+  induction recs with
+  | nil => intro o e he; simp [entriesFrom] at he
+  | cons r rs ih =>
+    intro o e he
+    obtain ⟨last, hok⟩ := recOK_of_mem (r :: rs) hwf r List.mem_cons_self
+    have hrs : recsWf rs = true := by
+      cases rs with
+      | nil => rfl
+      | cons r' rs' =>
+        simp only [recsWf, Bool.and_eq_true] at hwf
+        exact hwf.2
+    simp only [entriesFrom, List.mem_cons] at he
+    simp only [List.map_cons, List.flatten_cons, List.length_append]
+    rcases he with rfl | he
+    · obtain ⟨v1, v2, v3⟩ := entry_valid_bound r last hok o
+      exact ⟨v1, v2, by omega⟩
+    · obtain ⟨v1, v2, v3⟩ := ih hrs (o + r.render.length) e he
+      exact ⟨v1, v2, by omega⟩
+
 theorem entries_names (o : Nat) (recs : List Rec) :
     (entriesFrom o recs).map (·.name) = recs.map (·.name) := by
   induction recs generalizing o with
@@ -126,15 +252,15 @@ theorem nameOK_of_graphic (name : Bytes) (h : ∀ b ∈ name, isGraphic b = true
 
 /-- the index of a well-formed file satisfies the conditions of the text round trip and is in start order -/
 theorem file_indexOK (f : Hts.Spec.Fasta.File) (h : f.WF) (hq : ∀ r ∈ f.recs, DQ ∉ r.name)
-    (hsz : f.render.length < 2 ^ 63) :
+    (hsz : 2 * f.render.length + 2 < 2 ^ 63) :
     IndexOK (f.entries.map ofEntry) ∧ sortByStart (f.entries.map ofEntry) = f.entries.map ofEntry := by
   obtain ⟨_, hwf, hdist, _⟩ := h
   obtain ⟨hb, hp⟩ := entries_bounds f.recs hwf f.leading.length
-  have hlen : f.leading.length + (f.recs.map Rec.render).flatten.length < 2 ^ 63 := by
-    have : f.render.length = f.leading.length + (f.recs.map Rec.render).flatten.length := by
-      simp [Hts.Spec.Fasta.File.render]
-    omega
-  refine ⟨⟨?_, ?_, ?_⟩, ?_⟩
+  have hrl : f.render.length = f.leading.length + (f.recs.map Rec.render).flatten.length := by
+    simp [Hts.Spec.Fasta.File.render]
+  have hlen : f.leading.length + (f.recs.map Rec.render).flatten.length < 2 ^ 63 := by omega
+  have hv := entries_valid_bound f.recs hwf f.leading.length
+  refine ⟨⟨?_, ?_, ?_, ?_⟩, ?_⟩
   · have : (f.entries.map ofEntry).map (·.name) = f.recs.map (·.name) := by
       rw [List.map_map]
       have : ((fun x : Record => x.name) ∘ ofEntry) = (fun e : Entry => e.name) := rfl
@@ -160,6 +286,11 @@ theorem file_indexOK (f : Hts.Spec.Fasta.File) (h : f.WF) (hq : ∀ r ∈ f.recs
     have := hb e he
     simp only [Small, ofEntry]
     omega
+  · intro R hR
+    simp only [List.mem_map] at hR
+    obtain ⟨e, he, rfl⟩ := hR
+    obtain ⟨v1, v2, v3⟩ := hv e he
+    exact isValid_of_nat (ofEntry e) v1 v2 (by simp only [ofEntry]; omega)
   · apply sortByStart_sorted
     rw [List.pairwise_map]
     exact hp
